@@ -189,6 +189,20 @@ P = {
             "trusted: harness models T/Post; geo.* on Django and DB-missing SQL functions are "
             "classified as environment, not judged",
             "DESIGN.md 2/C12"),
+    "C04": ("reference-model monitor over object graphs: both real ORM shorthands executed on "
+            "small database instances (canonical + random), returned parent ids vs a three-valued "
+            "reference evaluation of navigation and any/all lambdas; ORM-vs-ORM agreement; "
+            "duplicate-parent monitor",
+            "Exploration by runtime monitoring: relational filters (to-one paths to depth 3, "
+            "relationship null tests, any()/any(x:p)/all(x:p) with collection and path owners, "
+            "nesting depth 2, and/or/not with plain predicates, roots Post and Author) run "
+            "through the Django and the SQLAlchemy ORM shorthand against the same instance: one "
+            "canonical instance containing every pass/fail pattern of 0..3 children, NULL foreign "
+            "keys and shared many-to-many children, plus random instances. Each backend's parent "
+            "ids (as a list, so duplicates are visible) must equal the reference set.",
+            "trusted: vpmon/gen/relational.py reference evaluator; to-one navigation inside "
+            "lambda bodies is generated in a reported-only lane (outside the quantifier)",
+            "DESIGN.md 2/C04"),
 }
 
 NOT_BUILT_REASON = "check not built yet in this round (design in DESIGN.md section 2); not claimed"
